@@ -98,6 +98,13 @@ fn executes_user_rti(m: &Machine) -> bool {
     }
     false
 }
+/// device configuration `v`: 0 = no display, 1 = no keyboard, 2 = neither; false if the program contains an I/O trap word (x20..x24)
+fn nodev(m: &mut Machine, v: u64) -> bool {
+    if m.pokes.iter().any(|(a, w)| *a >= 0x3000 && (0xF020..=0xF024).contains(w)) { return false; }
+    if v != 1 { m.display = false; }
+    if v != 0 { m.kb = None; m.kb_ie = false; }
+    true
+}
 fn check(m: &Machine, what: &str) -> Result<&'static str, (String, String)> { check_on(m, what, 0) }
 fn check_on(m: &Machine, what: &str, prior: u64) -> Result<&'static str, (String, String)> {
     if m.ignore_priv && executes_user_rti(m) { return Ok("unjudged"); }
@@ -114,6 +121,8 @@ fn check_on(m: &Machine, what: &str, prior: u64) -> Result<&'static str, (String
         return Ok("halt");
     }
     if let Some(k @ ("acv" | "priv" | "illop")) = v.err {
+        // the OS reports an exception by printing: without a display device that cannot complete (the library promises only HALT to work without I/O)
+        if !m.display { return Ok("unjudged"); }
         let msg = os_string(match k { "acv" => "S_EXC_ACV", "priv" => "S_EXC_PRIVL", _ => "S_EXC_ILLOP" });
         let mut exp = v.display.clone(); exp.extend(&msg);
         if r.result.is_err() || !r.halted { return Err((format!("exception:{k}:real-does-not-halt"), format!("{what}: virtual stops with {:?}; real result {:?} hit_halt={}", v.result, r.result, r.halted))); }
@@ -124,7 +133,7 @@ fn check_on(m: &Machine, what: &str, prior: u64) -> Result<&'static str, (String
 }
 
 pub fn run(ctx: &Ctx) -> Report {
-    let mut rep = Report::new("every user-mode program of 1-2 (thorough 3) instructions over the 40-word alphabet (I/O traps, subroutine calls, stack manipulation, loads/stores, faults) followed by HALT, plus 30 templates (stack use, nested subroutines saving R7, GETC/OUT/PUTS/PUTSP/IN, jumps and loads into supervisor memory, RTI, reserved opcode; 3 stack pointers), each run with run_with_limit(3000) under virtual and under real traps (again with ignore_privilege set, which leaves the program in user mode, and again in strict mode with R0-R5 never written, where the OS's own HALT and exception paths must still work): virtual HALT => same display, R0-R5, all user memory, and hit_halt() under real traps; virtual access/privilege/illegal-instruction error => real run prints the virtual output followed by the OS message for that exception (read from the OS image's symbol table) and halts; runs ending otherwise are counted, not judged. The templates and every 1-instruction (thorough 2-instruction) program are judged again on reused simulators: one that first ran a stack-using program (R6 in user memory) to its HALT under real or under virtual traps and was then reset() (4 prior uses). non-trivial = judged pairs");
+    let mut rep = Report::new("every user-mode program of 1-2 (thorough 3) instructions over the 40-word alphabet (I/O traps, subroutine calls, stack manipulation, loads/stores, faults) followed by HALT, plus 30 templates (stack use, nested subroutines saving R7, GETC/OUT/PUTS/PUTSP/IN, jumps and loads into supervisor memory, RTI, reserved opcode; 3 stack pointers), each run with run_with_limit(3000) under virtual and under real traps (again with ignore_privilege set, which leaves the program in user mode, and again in strict mode with R0-R5 never written, where the OS's own HALT and exception paths must still work): virtual HALT => same display, R0-R5, all user memory, and hit_halt() under real traps; virtual access/privilege/illegal-instruction error => real run prints the virtual output followed by the OS message for that exception (read from the OS image's symbol table) and halts; runs ending otherwise are counted, not judged. The templates and every 1-instruction (thorough 2-instruction) program are judged again on reused simulators: one that first ran a stack-using program (R6 in user memory) to its HALT under real or under virtual traps and was then reset() (4 prior uses). Programs and templates that contain no I/O trap word also run on simulators without a display, without a keyboard and without both (HALT must still stop the machine through the OS; exception endings are not judged there because the OS reports them by printing). non-trivial = judged pairs");
     let maxlen = ctx.pick(2usize, 3usize);
     for len in 1..=maxlen {
         let n = 40u64.pow(len as u32);
@@ -164,6 +173,20 @@ pub fn run(ctx: &Ctx) -> Report {
         }
     });
     rep.absorb(r);
+    // device configurations: the same programs on a simulator without a display and/or without a keyboard (as `Simulator::new` leaves it).
+    // Only programs that contain no I/O trap word are run there (GETC..PUTSP need their device); HALT must stop the machine through the OS regardless.
+    let dl = ctx.pick(1usize, 2usize);
+    let n = 40u64.pow(dl as u32);
+    let r = sweep(ctx, n * 3 + 30 * 3, 8, |k, acc| {
+        let (mut m, what, case) = if k < n * 3 { let (m, w) = program_machine(dl, k / 3, 0); (m, format!("program {w:x?}"), format!("n:{dl}:{}:{}", k / 3, k % 3)) } else { let j = k - n * 3; let Some(m) = template(j / 3) else { return }; (m, format!("template {}", j / 3), format!("nt:{}:{}", j / 3, j % 3)) };
+        if !nodev(&mut m, k % 3) { return; }
+        acc.evals += 1; acc.transitions += 2; acc.traces += 1; acc.count("programs_without_display_or_keyboard", 1);
+        match check_on(&m, &format!("{what} with display attached={} keyboard attached={}", m.display, m.kb.is_some()), 0) {
+            Ok(k) => { acc.count(&format!("ended_{k}"), 1); if k != "unjudged" { acc.nontrivial += 1; acc.count("judged_without_device", 1); } }
+            Err((sig, d)) => acc.violation(format!("nodev:{sig}"), case, d),
+        }
+    });
+    rep.absorb(r);
     // every 1-instruction program (and in thorough every 2-instruction program) again on reused simulators
     let rl = ctx.pick(1usize, 2usize);
     let n = 40u64.pow(rl as u32);
@@ -184,6 +207,8 @@ pub fn run(ctx: &Ctx) -> Report {
 pub fn replay(case: &str) -> Option<String> {
     let p: Vec<&str> = case.split(':').collect();
     let n = |i: usize| -> Option<u64> { p.get(i)?.parse().ok() };
-    let r = match *p.first()? { "p" => { let v = n(3).unwrap_or(0); let (mut m, w) = program_machine(n(1)? as usize, n(2)?, (v & 1) * 2); if v == 2 { m.strict = true; m.uninit_regs = 0x3F; } check(&m, &format!("program {w:x?}")) } "b" => check_on(&big_template(n(1)?)?, "large-output template", 0), "t" => { let mut m = template(n(1)?)?; let mut prior = n(2).unwrap_or(0); if prior == 5 { m.strict = true; m.uninit_regs = 0x3D; prior = 0; } check_on(&m, "template", prior) } "r" => { let (m, w) = program_machine(n(1)? as usize, n(2)?, 0); check_on(&m, &format!("program {w:x?}"), n(3)?) } _ => return None };
+    let r = match *p.first()? { "p" => { let v = n(3).unwrap_or(0); let (mut m, w) = program_machine(n(1)? as usize, n(2)?, (v & 1) * 2); if v == 2 { m.strict = true; m.uninit_regs = 0x3F; } check(&m, &format!("program {w:x?}")) } "b" => check_on(&big_template(n(1)?)?, "large-output template", 0), "t" => { let mut m = template(n(1)?)?; let mut prior = n(2).unwrap_or(0); if prior == 5 { m.strict = true; m.uninit_regs = 0x3D; prior = 0; } check_on(&m, "template", prior) } "r" => { let (m, w) = program_machine(n(1)? as usize, n(2)?, 0); check_on(&m, &format!("program {w:x?}"), n(3)?) }
+        "n" => { let (mut m, w) = program_machine(n(1)? as usize, n(2)?, 0); if !nodev(&mut m, n(3)?) { return None; } check_on(&m, &format!("program {w:x?} without display/keyboard"), 0).map_err(|(s, d)| (format!("nodev:{s}"), d)) }
+        "nt" => { let mut m = template(n(1)?)?; if !nodev(&mut m, n(2)?) { return None; } check_on(&m, "template without display/keyboard", 0).map_err(|(s, d)| (format!("nodev:{s}"), d)) } _ => return None };
     r.err().map(|(s, d)| format!("[{s}] {d}"))
 }
